@@ -65,6 +65,18 @@ func checkC04(p *Prog, r *Report) {
 	guard := func(isList func(ssa.Value) bool, nameField string, elemAlloc ssa.Value) func(cond ssa.Value, truth bool) bool {
 		return func(cond ssa.Value, truth bool) bool {
 			for _, ef := range expandFacts([]edgeFact{{Cond: cond, Truth: truth}}) {
+				// a search helper: contains(list, name)
+				if hc, isCall := ef.Cond.(*ssa.Call); isCall && ef.Truth {
+					if sum := existsPredicate(hc.Common().StaticCallee()); sum != nil && sum.elemField == "" && sum.collParam >= 0 {
+						as := hc.Common().Args
+						if isList(as[sum.collParam]) {
+							base, fl, ok := fieldLoad(as[sum.nameParam])
+							if ok && fl == nameField && (elemAlloc == nil || base == elemAlloc) {
+								return true
+							}
+						}
+					}
+				}
 				bo, ok := ef.Cond.(*ssa.BinOp)
 				if !ok || bo.Op != token.EQL || !ef.Truth {
 					continue
